@@ -39,6 +39,11 @@ void vf_unprotect_all(void);
 void vf_inject_arm(void (*fn)(void), int k);
 int vf_inject_pending(void);
 void vf_inject_disarm(void);
+// atomic-window interleaving (lock-free code): the k-th atomic instruction executed from now on is preceded by fn() (another thread's whole operation)
+void vf_ainject_arm(void (*fn)(void), int k);
+int vf_ainject_pending(void);
+void vf_ainject_disarm(void);
+int vf_ainject_events(void);
 // another thread acts while this one is blocked: a blocking atomic wait that would never end first runs fn() once (natively: a helper thread runs it 30 ms later)
 void vf_wait_arm(void (*fn)(void));
 void vf_wait_done(void);
